@@ -395,7 +395,7 @@ func (x *Exec) havocMods(st *State, ms *ModSet) {
 
 // inlineCall symbolically executes the callee body in the caller's state.
 func (x *Exec) inlineCall(st *State, fn *ssa.Function, binds []Val, args []Val, resT *types.Tuple, ghost bool) Val {
-	if ghost && x.p.isGhostFn(fn) && isRecursive(fn) {
+	if ghost && x.p.isGhostFn(fn) && (isRecursive(fn) || x.p.namedGhost(fn)) {
 		return x.recApp(st, fn, args, resT)
 	}
 	inlineCounter++
@@ -974,6 +974,13 @@ func (x *Exec) heapPureApp(st *State, name string, args []Val, rt types.Type) Va
 
 // ---------------------------------------------------------------------
 // recursive ghost (spec) functions become SMT define-fun-rec
+
+// namedGhost: a non-recursive specification function that is nevertheless kept
+// as a named SMT function (directive "named").
+func (p *Program) namedGhost(fn *ssa.Function) bool {
+	fc := p.contracts[p.funcKey(fn)]
+	return fc != nil && fc.Named
+}
 
 var recCache = map[*ssa.Function]bool{}
 
